@@ -1,6 +1,6 @@
 SPECIFICATION SpecFrom
 CONSTANTS
-  MaxNodes = 6
+  MaxNodes = 12
   Keys = {1, 2}
   Leafs = {101, 160, 170}
   Shapes = {200, 211, 220}
